@@ -80,7 +80,7 @@ func main() {
 		"ends, no callback in between), at least one rebroadcast containing every transaction that was pending throughout must have been started (zero = violation; " +
 		"fewer than one per interval is not; preconditions not established = inconclusive). Fingerprint = (DAG shape class, #tx bucket, outcome mix, trigger kinds, stop timing, " +
 		"confirmation timings). Non-trivial = at least one rebroadcast round was observed or at least one call was issued after Stop. || " +
-		c15.L2Rule + " || " + c15.L2CoSubRule)
+		c15.L2Rule + " || " + c15.L2CoSubRule + " || " + c15.L2SeqRule)
 	r.Assume("The harness' single mutex + sequence counter orders call/return events consistently with real time (call logged before, return after).")
 	r.Assume("RebroadcastInterval of 10h never fires in block-event schedules; rounds there come from block events only.")
 	r.Assume("Go goroutine ids are unique per process and runtime.Stack(all) lists every live goroutine with its creator.")
@@ -263,13 +263,19 @@ func main() {
 
 	// L2 part: one child process per scenario.
 	l2Start := time.Now()
-	var l2Evaluated, l2Replied, l2AllowedFailures, l2Rebroadcasts, l2CoJudged, l2CoDeep, l2Foreign atomic.Int64
-	nL2 := r.Pick(17, 600)
+	var l2Evaluated, l2Replied, l2AllowedFailures, l2Rebroadcasts, l2CoJudged, l2CoDeep, l2Foreign, l2SeqJudged, l2SeqMust, l2SeqRebro atomic.Int64
+	nL2 := r.Pick(19, 600)
 	if *busyOnly {
 		nL2 = 0
 	}
 	if nL2 > 0 {
-		l2.RunScenariosCB(r, nL2, 240*time.Second, c15.L2Scenario, func(res *l2.Result) {
+		// Quick tier: the two reply-sequence scenarios mostly wait (reject
+		// windows, BroadcastTimeout, settling before the block); they run next
+		// to the pool of the other 17 instead of queueing behind it. The case
+		// list is the same either way.
+		nMain := nL2
+		var side sync.WaitGroup
+		cb := func(res *l2.Result) {
 			l2Evaluated.Add(res.Counters["l2_calls_evaluated"])
 			l2Replied.Add(res.Counters["l2_calls_with_replies"])
 			l2AllowedFailures.Add(res.Counters["l2_allowed_failures"])
@@ -277,7 +283,20 @@ func main() {
 			l2CoJudged.Add(res.Counters["l2_cosub_rebroadcast_judged"])
 			l2CoDeep.Add(res.Counters["l2_cosub_cancel_with_21plus_unread"])
 			l2Foreign.Add(res.Counters["l2_foreign_first_peers_judged"])
-		})
+			l2SeqJudged.Add(res.Counters["l2_peers_rejecting_repeatedly_judged"])
+			l2SeqMust.Add(res.Counters["l2_calls_repeated_rejects_failure_not_allowed"])
+			l2SeqRebro.Add(res.Counters["l2_rebroadcast_seen_of_tx_a_peer_rejected_repeatedly"])
+		}
+		if nL2 == c15.L2SeqFixedK+2 {
+			nMain = c15.L2SeqFixedK
+			side.Add(1)
+			go func() {
+				defer side.Done()
+				l2.RunScenarioList(r, []int{c15.L2SeqFixedK, c15.L2SeqFixedK + 1}, 2, 240*time.Second, cb)
+			}()
+		}
+		l2.RunScenariosCB(r, nMain, 240*time.Second, c15.L2Scenario, cb)
+		side.Wait()
 	}
 	r.Set("l2_phase_wall_s", time.Since(l2Start).Seconds())
 	r.Set("l2_scenarios", nL2)
@@ -296,6 +315,11 @@ func main() {
 		case nL2 >= 16 && (l2CoJudged.Load() == 0 || l2CoDeep.Load() == 0):
 			r.Broken(fmt.Sprintf("L2 co-subscriber family unobserved: %d scenarios judged, %d cancels with more unread notifications than the subscriber's channel buffers",
 				l2CoJudged.Load(), l2CoDeep.Load()))
+		case nL2 > c15.L2SeqFixedK+1 && (l2SeqJudged.Load() == 0 || l2SeqMust.Load() == 0):
+			// (the rebroadcast of such a transaction is counted, not required
+			// here: a change that makes those calls fail leaves none.)
+			r.Broken(fmt.Sprintf("L2 reply-sequence family unobserved: %d peers that rejected repeatedly were judged, %d calls with such a peer in which a failure was not allowed",
+				l2SeqJudged.Load(), l2SeqMust.Load()))
 		}
 	}
 	if tickSchedules >= 5 && tickRounds == 0 {
